@@ -61,6 +61,8 @@ def gen_world(rng, fmt=None, apdep=None, n_models=(1, 8), n_ap=(1, 5), n_wav=(5,
     w['err_unit'] = rng.choice(['mJy', 'Jy', 'ergs/cm^2/s']) if (w['dtype'] == 'f8' and rng.random() < 0.3) else None
     # a model on another wavelength grid may share the number of points and both end points with the others
     w['mixed_kind'] = rng.choice(['different', 'same_ends'])
+    w['sed_no_distance_key'] = rng.random() < 0.2     # per-file SEDs may omit DISTANCE (1 kpc is then assumed; the author uses 1 kpc)
+    w['nan_param'] = rng.random() < 0.1               # one parameter value of the package may be NaN (unknown)
     w['ext_n'] = rng.choice([3, 8, 40])
     # units in which the user states aperture radii and the distance range (any angle / length unit is legal)
     w['ap_unit'] = rng.choice(['arcsec', 'arcsec', 'arcmin', 'deg', 'mas'])
@@ -149,6 +151,8 @@ class World(object):
         for k, p in enumerate(self.par_names):
             base = 1.02 ** g.permutation(nm) * (k + 1.5)
             self.pars[p] = base * 10.0 ** int(g.integers(-4, 5)) * (-1 if g.random() < 0.2 else 1)
+        if spec.get('nan_param') and nm > 1:
+            self.pars[self.par_names[-1]][int(g.integers(0, nm))] = np.nan
         self.perm = np.random.default_rng(spec['perm_seed']).permutation(nm)
         # filters
         lo, hi = self.wav[0] * 1.05, self.wav[-1] / 1.05
@@ -252,7 +256,8 @@ class World(object):
                     sub = os.path.join(sub, nm[:spec['subdir']])
                     os.makedirs(sub, exist_ok=True)
                 write_sed_file(os.path.join(sub, nm + '_sed' + ext), nm, w, self.aps, v, e, dtype=self.dtype,
-                               unit=spec.get('flux_unit', 'mJy'), err_unit=spec.get('err_unit'))
+                               unit=spec.get('flux_unit', 'mJy'), err_unit=spec.get('err_unit'),
+                               distance_key=not (spec.get('sed_no_distance_key') and spec.get('flux_unit') != 'erg/s'))
             self.write_params(d, self.perm if perm is None else perm, gz=gz)
         else:
             w, v, e = self.wav, self.val, self.unc
@@ -287,13 +292,14 @@ def _from_mjy(a, unit, wav, distance_cm):
     raise ValueError(unit)
 
 
-def write_sed_file(path, name, wav, aps, flux, err, dtype='f8', unit='mJy', distance_cm=KPC_CM, err_unit=None):
+def write_sed_file(path, name, wav, aps, flux, err, dtype='f8', unit='mJy', distance_cm=KPC_CM, err_unit=None, distance_key=True):
     err_unit = err_unit or unit
     flux = _from_mjy(flux, unit, wav, distance_cm)
     err = _from_mjy(err, err_unit, wav, distance_cm)
     h0 = fits.PrimaryHDU()
     h0.header['MODEL'] = name
-    h0.header['DISTANCE'] = distance_cm
+    if distance_key:
+        h0.header['DISTANCE'] = distance_cm
     h0.header['NAP'] = flux.shape[0]
     h0.header['NWAV'] = len(wav)
     fc = 'D' if dtype == 'f8' else 'E'
